@@ -8,6 +8,7 @@ VARIABLES S, depth
 bvars == <<cfg, S, depth>>
 CONSTANT MaxDepth
 
+RealTime == -1      \* a non-positive cold rate: moves are not rate limited
 Wf1 == [nodes |-> {1}, comp |-> (1 :> 1), data |-> (1 :> 0), edges |-> {}, vol |-> EmptyFn, torder |-> <<1>>]
 Ob(size) == [est |-> 0, estT |-> 0, dur |-> size, demand |-> 1, ing |-> 1, rate |-> 1] @@ Wf1
 BufCfgs ==
@@ -16,7 +17,7 @@ BufCfgs ==
        order |-> <<"a", "b">>, obs |-> ("a" :> Ob(sa) @@ "b" :> Ob(sb)),
        alg |-> "queue", parts |-> 1, minPer |-> 1, split |-> EmptyFn, extra |-> EmptyFn,
        plan |-> EmptyFn, advRounds |-> 0, advProv |-> 0, perm |-> {}, canon |-> TRUE, seg |-> FALSE, api |-> FALSE ] :
-       sa \in 1..6, sb \in {2, 5}, hr \in 1..3, cr \in 1..3, hc \in {7, 12}, cc \in {4, 8, 12}}
+       sa \in 1..6, sb \in {2, 5}, hr \in 1..3, cr \in (1..3) \cup {RealTime}, hc \in {7, 12}, cc \in {4, 8, 12}}
 
 BState == [ApiInit EXCEPT !.cl = InitState.cl] @@
           [obs |-> InitState.obs, buf |-> InitState.buf, ev |-> InitState.ev, nmove |-> 0,
@@ -53,5 +54,5 @@ A_done == [][Tr_C18_done(S, S')]_bvars
 A_refused == [][Tr_C18_refused(S, S')]_bvars
 (* the drain of one Tick moves exactly Min(left, Min(rates)) for the mover *)
 A_tick == [][\A q \in Movers(S) : (q \in Movers(S') /\ S'.now > S.now) =>
-                S.procs[q].left - S'.procs[q].left = MinI(S.procs[q].left, MinI(cfg.hotRate, cfg.coldRate))]_bvars
+                S.procs[q].left - S'.procs[q].left = StepAmount(S.procs[q].left)]_bvars
 =============================================================================
